@@ -127,6 +127,12 @@ class MiniEval:
                     m = fb.bound_repo_method(obj, n.attr)
                     if m is not None:
                         return m
+                    if n.attr.startswith("_") and not n.attr.startswith("__") and not hasattr(type(obj), n.attr) and n.attr not in obj.__dict__:
+                        found, val = fb.initial_private_attr(obj, n.attr)
+                        if found:
+                            obj.__dict__.setdefault("_user_attrs", set()).add(n.attr)
+                            obj.__dict__[n.attr] = val
+                            return val
                 raise Unsupported(f"model {type(obj).__name__} has no attribute {n.attr}")
             return getattr(obj, n.attr)
         for ty, names in _SAFE_METHODS.items():
@@ -138,6 +144,9 @@ class MiniEval:
             return getattr(obj, n.attr)
         if obj in (dict, set, frozenset, str, list, tuple, int) and n.attr in ("fromkeys", "union", "intersection", "join", "maketrans", "from_bytes", "difference") and hasattr(obj, n.attr):
             return getattr(obj, n.attr)
+        for ty, names in _SAFE_METHODS.items():
+            if obj is ty and n.attr in names:
+                return getattr(ty, n.attr)  # unbound method of a builtin type: map(str.strip, ...), set.union
         raise Unsupported(f"attribute {n.attr} on {type(obj).__name__}")
 
     def ev_Call(self, n):
@@ -155,6 +164,20 @@ class MiniEval:
                 elif tname in self.env and isinstance(self.env[tname], type):
                     types.append(self.env[tname])
                 else:
+                    cls = None
+                    try:
+                        cls = self.ev(t)
+                    except Unsupported:
+                        pass
+                    from .userclass import UserClass, is_instance_of
+
+                    if isinstance(cls, UserClass):
+                        if is_instance_of(obj, cls):
+                            return True
+                        continue
+                    if isinstance(cls, type):
+                        types.append(cls)
+                        continue
                     raise Unsupported(f"isinstance against {tname}")
             return isinstance(obj, tuple(types))
         if isinstance(n.func, ast.Attribute) and n.func.attr == "__init__" and isinstance(n.func.value, ast.Call) and isinstance(n.func.value.func, ast.Name) and n.func.value.func.id == "super":
@@ -330,13 +353,39 @@ class MiniEval:
         return v
 
     def ev_Lambda(self, n):
-        names = [x.arg for x in n.args.posonlyargs + n.args.args]
+        a = n.args
+        names = [x.arg for x in a.posonlyargs + a.args]
         outer = self
+        # default values are evaluated once, when the lambda expression is evaluated (CPython)
+        defaults = dict(zip(names[len(names) - len(a.defaults):], [self.ev(d) for d in a.defaults]))
+        kwdefaults = {k.arg: self.ev(d) for k, d in zip(a.kwonlyargs, a.kw_defaults) if d is not None}
 
-        def lam(*args):
+        def lam(*args, **kwargs):
             sub = MiniEval(dict(outer.env))
+            sub.env.update(defaults)
+            sub.env.update(kwdefaults)
             for nm, v in zip(names, args):
                 sub.env[nm] = v
+            if len(args) > len(names):
+                if a.vararg is None:
+                    raise ModelRaise("TypeError", "too many positional arguments for a lambda")
+                sub.env[a.vararg.arg] = tuple(args[len(names):])
+            elif a.vararg is not None:
+                sub.env[a.vararg.arg] = ()
+            known = set(names) | {k.arg for k in a.kwonlyargs}
+            extra = {}
+            for k, v in kwargs.items():
+                if k in known:
+                    sub.env[k] = v
+                elif a.kwarg is not None:
+                    extra[k] = v
+                else:
+                    raise ModelRaise("TypeError", f"unexpected keyword argument {k} for a lambda")
+            if a.kwarg is not None:
+                sub.env[a.kwarg.arg] = extra
+            missing = [nm for nm in names if nm not in sub.env or (nm not in defaults and nm not in kwargs and names.index(nm) >= len(args))]
+            if missing:
+                raise ModelRaise("TypeError", f"missing argument(s) {missing} for a lambda")
             return sub.ev(n.body)
 
         return lam
@@ -390,21 +439,29 @@ class MiniEval:
         return "".join(out)
 
     def _comp(self, n, make):
+        """List / set / dict comprehension: its own scope (iteration variables do not leak, closures created inside keep
+        seeing it), `:=` targets bind in the enclosing scope, iterables are consumed lazily (itertools.groupby groups!)."""
+        child = MiniEval(self.env)
+        walrus = {t.target.id for t in ast.walk(n) if isinstance(t, ast.NamedExpr) and isinstance(t.target, ast.Name)}
+
         def rec(gens, acc):
             if not gens:
-                acc.append(make())
+                acc.append(make(child))
                 return
             g = gens[0]
-            it = self.ev(g.iter)
-            for x in list(it):
-                self._bind(g.target, x)
-                if all(self.ev(c) for c in g.ifs):
+            it = child.ev(g.iter)
+            for x in (list(it) if isinstance(it, (list, tuple, set, frozenset, dict, str)) else it):
+                child._bind(g.target, x)
+                if all(child.ev(c) for c in g.ifs):
                     rec(gens[1:], acc)
 
         acc = []
-        saved = dict(self.env)
-        rec(n.generators, acc)
-        self.env = saved
+        try:
+            rec(n.generators, acc)
+        finally:
+            for w in walrus:
+                if w in child.env:
+                    self.env[w] = child.env[w]
         return acc
 
     def _bind(self, target, value):
@@ -449,10 +506,10 @@ class MiniEval:
             raise Unsupported(f"bind target {norm(target)}")
 
     def ev_ListComp(self, n):
-        return self._comp(n, lambda: self.ev(n.elt))
+        return self._comp(n, lambda ch: ch.ev(n.elt))
 
     def ev_SetComp(self, n):
-        return set(self._comp(n, lambda: self.ev(n.elt)))
+        return set(self._comp(n, lambda ch: ch.ev(n.elt)))
 
     def ev_GeneratorExp(self, n):
         """Lazy, like Python: the outermost iterable is evaluated now, everything else at consumption
@@ -483,11 +540,94 @@ class MiniEval:
         return rec(0, {})
 
     def ev_DictComp(self, n):
-        return dict(self._comp(n, lambda: (self.ev(n.key), self.ev(n.value))))
+        return dict(self._comp(n, lambda ch: (ch.ev(n.key), ch.ev(n.value))))
 
 
 class Events(Exception):
     pass
+
+
+class _GenClose(BaseException):
+    pass
+
+
+_THREAD_STACK_SET = [False]
+
+
+class LazyGen:
+    """A generator function's body, run lazily: it advances to the next `yield` only when the consumer asks for the next
+    value (a `return`, an exception or the end of the body ends the iteration), as in CPython.  The body runs on its own
+    thread purely as a coroutine - exactly one of consumer and body is ever running."""
+
+    def __init__(self, run_body):
+        import threading
+
+        if not _THREAD_STACK_SET[0]:
+            try:
+                threading.stack_size(64 * 1024 * 1024)
+            except (ValueError, RuntimeError):
+                pass
+            _THREAD_STACK_SET[0] = True
+        self._run_body = run_body
+        self._to_gen = threading.Semaphore(0)
+        self._to_caller = threading.Semaphore(0)
+        self._thread = None
+        self._finished = False
+        self._closing = False
+        self._exc = None
+        self._value = None
+
+    def __iter__(self):
+        return self
+
+    def _target(self):
+        try:
+            self._run_body(self._yield)
+        except _GenClose:
+            pass
+        except BaseException as e:  # noqa: B902 - transported to the consumer
+            self._exc = e
+        finally:
+            self._finished = True
+            self._to_caller.release()
+
+    def _yield(self, v):
+        self._value = v
+        self._to_caller.release()
+        self._to_gen.acquire()
+        if self._closing:
+            raise _GenClose()
+
+    def __next__(self):
+        import threading
+
+        if self._finished:
+            raise StopIteration
+        if self._thread is None:
+            self._thread = threading.Thread(target=self._target, daemon=True)
+            self._thread.start()
+        else:
+            self._to_gen.release()
+        self._to_caller.acquire()
+        if self._exc is not None:
+            e, self._exc = self._exc, None
+            raise e
+        if self._finished:
+            raise StopIteration
+        return self._value
+
+    def close(self):
+        if self._thread is not None and not self._finished:
+            self._closing = True
+            self._to_gen.release()
+            self._to_caller.acquire()
+        self._finished = True
+
+    def __del__(self):
+        try:
+            self.close()
+        except Exception:
+            pass
 
 
 class BlockInterp:
@@ -568,16 +708,21 @@ class BlockInterp:
             sub = BlockInterp(env, on_call=outer.on_call, on_raise=outer.on_raise, max_steps=outer.max_steps)
             sub.me.env[fdef.name] = closure
             if is_gen:
-                sub.yielded = []
+                def run_body(yield_fn):
+                    sub.yield_fn = yield_fn
+                    r_ = sub.run(fdef.body)
+                    for nm in getattr(sub, "outer_names", ()):
+                        if nm in sub.me.env:
+                            outer.me.env[nm] = sub.me.env[nm]
+                    if isinstance(r_, tuple) and r_[0] == "raise":
+                        raise ModelRaise(r_[1] or "Exception", "raised in generator")
+
+                return LazyGen(run_body)
             r = sub.run(fdef.body)
             outer.steps += sub.steps
             for nm in getattr(sub, "outer_names", ()):
                 if nm in sub.me.env:
                     outer.me.env[nm] = sub.me.env[nm]
-            if is_gen:
-                if isinstance(r, tuple) and r[0] == "raise":
-                    raise ModelRaise(r[1] or "Exception", "raised in generator")
-                return iter(sub.yielded)
             if isinstance(r, tuple) and r[0] == "return":
                 return r[1]
             if isinstance(r, tuple) and r[0] == "raise":
@@ -585,6 +730,84 @@ class BlockInterp:
             return None
 
         return closure
+
+    def _match(self, pat, value):
+        """Structural pattern matching (PEP 634) for the pattern kinds library code uses; captures are bound in the current scope."""
+        from .userclass import UserClass, UserInstance, is_instance_of
+
+        if isinstance(pat, ast.MatchValue):
+            return value == self.me.ev(pat.value)
+        if isinstance(pat, ast.MatchSingleton):
+            return value is pat.value
+        if isinstance(pat, ast.MatchAs):
+            if pat.pattern is not None and not self._match(pat.pattern, value):
+                return False
+            if pat.name is not None:
+                self.me.env[pat.name] = value
+            return True
+        if isinstance(pat, ast.MatchOr):
+            return any(self._match(p, value) for p in pat.patterns)
+        if isinstance(pat, ast.MatchSequence):
+            is_seq = isinstance(value, (list, tuple)) or (isinstance(value, UserInstance) and value._uc_class._uc_kind == "namedtuple")
+            if not is_seq:
+                return False
+            vals = list(value)
+            stars = [i for i, p in enumerate(pat.patterns) if isinstance(p, ast.MatchStar)]
+            if not stars:
+                return len(vals) == len(pat.patterns) and all(self._match(p, v) for p, v in zip(pat.patterns, vals))
+            i = stars[0]
+            after = len(pat.patterns) - i - 1
+            if len(vals) < len(pat.patterns) - 1:
+                return False
+            if not all(self._match(p, v) for p, v in zip(pat.patterns[:i], vals[:i])):
+                return False
+            if after and not all(self._match(p, v) for p, v in zip(pat.patterns[i + 1:], vals[len(vals) - after:])):
+                return False
+            if pat.patterns[i].name is not None:
+                self.me.env[pat.patterns[i].name] = vals[i:len(vals) - after]
+            return True
+        if isinstance(pat, ast.MatchMapping):
+            if not isinstance(value, dict):
+                return False
+            keys = [self.me.ev(k) for k in pat.keys]
+            if any(k not in value for k in keys):
+                return False
+            if not all(self._match(p, value[k]) for k, p in zip(keys, pat.patterns)):
+                return False
+            if pat.rest is not None:
+                self.me.env[pat.rest] = {k: v for k, v in value.items() if k not in keys}
+            return True
+        if isinstance(pat, ast.MatchClass):
+            cname = norm(pat.cls).split(".")[-1]
+            builtin = {"str": str, "int": int, "float": float, "bool": bool, "list": list, "tuple": tuple, "dict": dict, "set": set, "frozenset": frozenset, "bytes": bytes}
+            if cname in builtin and cname not in self.me.env:
+                ty = builtin[cname]
+                if not isinstance(value, ty) or (ty is int and isinstance(value, bool) and False):
+                    return False
+                if pat.kwd_attrs:
+                    raise Unsupported(f"keyword sub-patterns on builtin {cname}")
+                if len(pat.patterns) > 1:
+                    raise ModelRaise("TypeError", f"{cname}() accepts 1 positional sub-pattern")
+                return all(self._match(p, value) for p in pat.patterns)
+            cls = self.me.ev(pat.cls)
+            if not isinstance(cls, UserClass):
+                raise Unsupported(f"class pattern {cname}")
+            if not is_instance_of(value, cls):
+                return False
+            margs = cls.lookup("__match_args__")
+            if not isinstance(margs, (tuple, list)):
+                margs = tuple(f[0] for f in cls._uc_fields)
+            if len(pat.patterns) > len(margs):
+                raise ModelRaise("TypeError", f"{cname}() accepts {len(margs)} positional sub-patterns")
+            for p, attr in list(zip(pat.patterns, margs)) + list(zip(pat.kwd_patterns, pat.kwd_attrs)):
+                try:
+                    v = getattr(value, attr)
+                except AttributeError:
+                    return False
+                if not self._match(p, v):
+                    return False
+            return True
+        raise Unsupported(f"pattern kind {type(pat).__name__}")
 
     def run(self, stmts):
         for st in stmts:
@@ -602,14 +825,15 @@ class BlockInterp:
                 return self.run(st.body)
             return self.run(st.orelse)
         if isinstance(st, ast.Expr) and isinstance(st.value, ast.YieldFrom):
-            if not hasattr(self, "yielded"):
+            if not hasattr(self, "yield_fn"):
                 raise Unsupported("yield from outside a generator closure")
-            self.yielded.extend(list(self.me.ev(st.value.value)))
+            for x in self.me.ev(st.value.value):
+                self.yield_fn(x)
             return "next"
         if isinstance(st, ast.Expr) and isinstance(st.value, ast.Yield):
-            if not hasattr(self, "yielded"):
+            if not hasattr(self, "yield_fn"):
                 raise Unsupported("yield outside a generator closure")
-            self.yielded.append(self.me.ev(st.value.value) if st.value.value is not None else None)
+            self.yield_fn(self.me.ev(st.value.value) if st.value.value is not None else None)
             return "next"
         if isinstance(st, ast.Expr):
             if isinstance(st.value, ast.Constant):
@@ -676,6 +900,17 @@ class BlockInterp:
             return "next"
         if isinstance(st, ast.FunctionDef):
             self.me.env[st.name] = self.make_closure(st)
+            return "next"
+        if isinstance(st, ast.ClassDef):
+            from .userclass import build_class
+
+            self.me.env[st.name] = build_class(st, self)
+            return "next"
+        if isinstance(st, ast.Match):
+            subject = self.me.ev(st.subject)
+            for case in st.cases:
+                if self._match(case.pattern, subject) and (case.guard is None or self.me.ev(case.guard)):
+                    return self.run(case.body)
             return "next"
         if isinstance(st, (ast.Import, ast.ImportFrom)):
             table = self.me.env.get("__imports__", {})
